@@ -94,7 +94,7 @@ def configs(tier, seed):
                  T=[a_f] + ([a_i] if th else []) + [tpl("n", "int", num(k + 1)), tpl("z", "bool", True), tpl("g.x", "float", num(0), u1),
                                                           tpl("e", "str", chars(S1)), tpl("e", "str", [])],
                  M=[lit("float", num(0), u2), lit("float", num(0)), lit("int", num(0)), m_i, m_b, lit("str", [])],
-                 SL=[], HU=[u2], bounds=B(2, 2 if th else 1, 1, 1, fewhosts=True), modes=["base", "remote"] if th else [])
+                 SL=[], HU=[u2], bounds=B(2, 1, 1, 1, fewhosts=True), modes=["base", "remote"] if th else [])
     # a custom unit of the file ($unit hm = 100 m): referenced node in [hm] and host in an ordinary unit, and vice versa
     custom = dict(name="custom-unit",
                   T=[tpl("a", "float", f, "[hm]"), tpl("a", "float", f, "m"), tpl("g.x", "int", num(k), "[hm]"),
@@ -105,7 +105,7 @@ def configs(tier, seed):
     # readers change nothing: a logical expression compares two referenced numbers given in different units BEFORE
     # one of them is injected / imported (again)
     compare = dict(name="compare", T=[a_f, tpl("b", "float", num(k), u2), gx_c, tpl("n", "float", num(k + 1), u1)],
-                   M=[m_f2], SL=[], HU=[u2], bounds=B(3 if th else 2, 1 if th else 0, 1, 1 if th else 0, fewhosts=True, cmp=1),
+                   M=[m_f2], SL=[], HU=[u2], bounds=B(2, 1 if th else 0, 1, 1 if th else 0, fewhosts=True, cmp=1),
                    modes=["base"] if th else [])
     cfgs += [zeros, custom, compare]
     return cfgs
